@@ -32,6 +32,34 @@ fn e<T: serde::Serialize>(label: &str, contract: &str, msg: &T, allowed: &[&str]
     Entry { label: label.to_string(), contract: contract.to_string(), msg: to_json_binary(msg).unwrap(), funds: vec![], allowed: allowed.iter().map(|s| s.to_string()).collect(), note: "" }
 }
 
+/// One entry per optional field of a configuration message: the message with only that field set (and one with
+/// nothing set). Authorisation must not depend on which fields a message carries. `path` leads from the variant's
+/// body to the object holding the optional fields (vault factory: `params`).
+fn sweep<T: serde::Serialize>(v: &mut Vec<Entry>, label: &str, contract: &str, all_none: &T, path: &[&str], fields: &[(&str, Value)], allowed: &[&str]) {
+    let base = serde_json::to_value(all_none).unwrap();
+    let variant = base.as_object().expect("enum variant object").keys().next().unwrap().clone();
+    let mk = |field: Option<(&str, &Value)>| -> Entry {
+        let mut m = base.clone();
+        let mut obj = m.get_mut(&variant).unwrap();
+        for p in path {
+            obj = obj.get_mut(*p).unwrap();
+        }
+        let tag = match field {
+            Some((f, val)) => {
+                assert!(obj.get(f).map(|x| x.is_null()).unwrap_or(false), "{label}: field {f} is not an unset option of the base message");
+                obj[f] = val.clone();
+                if val.as_str() == Some("$CALLER") { format!("[only {f}=caller]") } else { format!("[only {f}]") }
+            }
+            None => "[nothing set]".to_string(),
+        };
+        Entry { label: format!("{label}{tag}"), contract: contract.to_string(), msg: Binary::from(serde_json::to_vec(&m).unwrap()), funds: vec![], allowed: allowed.iter().map(|s| s.to_string()).collect(), note: "" }
+    };
+    v.push(mk(None));
+    for (f, val) in fields {
+        v.push(mk(Some((f, val))));
+    }
+}
+
 pub struct Setup {
     pub h: FullHub,
     pub snap: Snapshot,
@@ -300,7 +328,58 @@ pub fn entries(s: &Setup, after_transfer: bool) -> Vec<Entry> {
         &EM::UpdateConfig { owner: None, epoch_config: Some(white_whale_std::epoch_manager::epoch_manager::EpochConfig { duration: Uint64::new(2 * crate::scn_lair::DAY_NS), genesis_epoch: Uint64::new(h.genesis_ns) }) },
         &[own],
     ));
+    // ---- every configuration message again, once per optional field (incl. taking over the ownership) and empty
+    let me = json!("$CALLER");
+    let jv = |x: &dyn erased::Ser| x.to_value();
+    let pool_fees = jv(&FH_FEES.pool());
+    let trio_fees = jv(&FH_FEES.trio());
+    let vault_fees = jv(&FH_FEES.vault());
+    let toggle = json!({"withdrawals_enabled": true, "deposits_enabled": false, "swaps_enabled": true});
+    let ramp = json!({"future_a": 200, "future_block": s.snap.height + 20_000});
+    sweep(&mut v, "pool_factory.UpdateConfig", pf, &PF::UpdateConfig { owner: None, fee_collector_addr: None, token_code_id: None, pair_code_id: None, trio_code_id: None }, &[],
+        &[("owner", me.clone()), ("fee_collector_addr", me.clone()), ("token_code_id", json!(1)), ("pair_code_id", json!(2)), ("trio_code_id", json!(3))], &[own]);
+    if !after_transfer {
+        sweep(&mut v, "pool_factory.UpdatePairConfig", pf, &PF::UpdatePairConfig { pair_addr: h.pair.addr.clone(), owner: None, fee_collector_addr: None, pool_fees: None, feature_toggle: None }, &[],
+            &[("owner", me.clone()), ("fee_collector_addr", me.clone()), ("pool_fees", pool_fees.clone()), ("feature_toggle", toggle.clone())], &[own]);
+        sweep(&mut v, "pool_factory.UpdateTrioConfig", pf, &PF::UpdateTrioConfig { trio_addr: h.trio.addr.clone(), owner: None, fee_collector_addr: None, pool_fees: None, feature_toggle: None, amp_factor: None }, &[],
+            &[("owner", me.clone()), ("fee_collector_addr", me.clone()), ("pool_fees", trio_fees.clone()), ("feature_toggle", toggle.clone()), ("amp_factor", ramp.clone())], &[own]);
+        sweep(&mut v, "vault_factory.UpdateVaultConfig", vf, &VF::UpdateVaultConfig { vault_addr: h.vault.vault.clone(), params: UpdateConfigParams { flash_loan_enabled: None, deposit_enabled: None, withdraw_enabled: None, new_owner: None, new_vault_fees: None, new_fee_collector_addr: None } }, &["params"],
+            &[("flash_loan_enabled", json!(false)), ("deposit_enabled", json!(false)), ("withdraw_enabled", json!(false)), ("new_owner", me.clone()), ("new_vault_fees", vault_fees.clone()), ("new_fee_collector_addr", me.clone())], &[own]);
+    }
+    sweep(&mut v, "pair.UpdateConfig", &h.pair.addr, &white_whale_std::pool_network::pair::ExecuteMsg::UpdateConfig { owner: None, fee_collector_addr: None, pool_fees: None, feature_toggle: None }, &[],
+        &[("owner", me.clone()), ("fee_collector_addr", me.clone()), ("pool_fees", pool_fees.clone()), ("feature_toggle", toggle.clone())], &child_owner_pair);
+    sweep(&mut v, "trio.UpdateConfig", &h.trio.addr, &white_whale_std::pool_network::trio::ExecuteMsg::UpdateConfig { owner: None, fee_collector_addr: None, pool_fees: None, feature_toggle: None, amp_factor: None }, &[],
+        &[("owner", me.clone()), ("fee_collector_addr", me.clone()), ("pool_fees", trio_fees.clone()), ("feature_toggle", toggle.clone()), ("amp_factor", ramp.clone())], &child_owner_pair);
+    sweep(&mut v, "vault.UpdateConfig", &h.vault.vault, &white_whale_std::vault_network::vault::ExecuteMsg::UpdateConfig(UpdateConfigParams { flash_loan_enabled: None, deposit_enabled: None, withdraw_enabled: None, new_owner: None, new_vault_fees: None, new_fee_collector_addr: None }), &[],
+        &[("flash_loan_enabled", json!(false)), ("deposit_enabled", json!(false)), ("withdraw_enabled", json!(false)), ("new_owner", me.clone()), ("new_vault_fees", vault_fees.clone()), ("new_fee_collector_addr", me.clone())], &child_owner_vault);
+    sweep(&mut v, "vault_factory.UpdateConfig", vf, &VF::UpdateConfig { owner: None, fee_collector_addr: None, vault_id: None, token_id: None }, &[],
+        &[("owner", me.clone()), ("fee_collector_addr", me.clone()), ("vault_id", json!(6)), ("token_id", json!(1))], &[own]);
+    sweep(&mut v, "vault_router.UpdateConfig", vr, &white_whale_std::vault_network::vault_router::ExecuteMsg::UpdateConfig { owner: None, vault_factory_addr: None }, &[],
+        &[("owner", me.clone()), ("vault_factory_addr", me.clone())], &[own]);
+    sweep(&mut v, "fee_collector.UpdateConfig", &h.fee.collector, &white_whale_std::fee_collector::ExecuteMsg::UpdateConfig { owner: None, pool_router: None, fee_distributor: None, pool_factory: None, vault_factory: None, take_rate: None, take_rate_dao_address: None, is_take_rate_active: None }, &[],
+        &[("owner", me.clone()), ("pool_router", me.clone()), ("fee_distributor", me.clone()), ("pool_factory", me.clone()), ("vault_factory", me.clone()), ("take_rate", json!("0.5")), ("take_rate_dao_address", me.clone()), ("is_take_rate_active", json!(true))], &[own]);
+    sweep(&mut v, "fee_distributor.UpdateConfig", &h.fee.distributor, &white_whale_std::fee_distributor::ExecuteMsg::UpdateConfig { owner: None, bonding_contract_addr: None, fee_collector_addr: None, grace_period: None, distribution_asset: None, epoch_config: None }, &[],
+        &[("owner", me.clone()), ("bonding_contract_addr", me.clone()), ("fee_collector_addr", me.clone()), ("grace_period", json!("5")), ("distribution_asset", jv(&native("uusdc"))), ("epoch_config", json!({"duration": (2 * crate::scn_lair::DAY_NS).to_string(), "genesis_epoch": h.genesis_ns.to_string()}))], &[own]);
+    sweep(&mut v, "whale_lair.UpdateConfig", &h.fee.lair, &white_whale_std::whale_lair::ExecuteMsg::UpdateConfig { owner: None, unbonding_period: None, growth_rate: None, fee_distributor_addr: None }, &[],
+        &[("owner", me.clone()), ("unbonding_period", json!("1000000000")), ("growth_rate", json!("0.5")), ("fee_distributor_addr", me.clone())], &[own]);
+    sweep(&mut v, "incentive_factory.UpdateConfig", &h.ifactory, &IF::UpdateConfig { owner: None, fee_collector_addr: None, fee_distributor_addr: None, create_flow_fee: None, max_concurrent_flows: None, incentive_code_id: None, max_flow_start_time_buffer: None, min_unbonding_duration: None, max_unbonding_duration: None }, &[],
+        &[("owner", me.clone()), ("fee_collector_addr", me.clone()), ("fee_distributor_addr", me.clone()), ("create_flow_fee", jv(&asset(&native("ufee"), 7))), ("max_concurrent_flows", json!(9)), ("incentive_code_id", json!(13)), ("max_flow_start_time_buffer", json!(20)), ("min_unbonding_duration", json!(90_000)), ("max_unbonding_duration", json!(31_000_000))], &[own]);
+    sweep(&mut v, "frontend_helper.UpdateConfig", &h.helper, &white_whale_std::pool_network::frontend_helper::ExecuteMsg::UpdateConfig { incentive_factory_addr: None, owner: None }, &[],
+        &[("owner", me.clone()), ("incentive_factory_addr", me.clone())], &[own]);
+    sweep(&mut v, "epoch_manager.UpdateConfig", &h.epoch_manager, &EM::UpdateConfig { owner: None, epoch_config: None }, &[],
+        &[("owner", me.clone()), ("epoch_config", json!({"duration": (3 * crate::scn_lair::DAY_NS).to_string(), "genesis_epoch": h.genesis_ns.to_string()}))], &[own]);
     v
+}
+
+mod erased {
+    pub trait Ser {
+        fn to_value(&self) -> serde_json::Value;
+    }
+    impl<T: serde::Serialize> Ser for T {
+        fn to_value(&self) -> serde_json::Value {
+            serde_json::to_value(self).unwrap()
+        }
+    }
 }
 
 pub fn callers(s: &Setup) -> Vec<(String, String)> {
@@ -387,7 +466,13 @@ pub fn run_case(w: &mut World, s: &Setup, en: &Entry, caller: &(String, String),
     } else {
         cx.count("unauthorised:attempt");
         let sig = en.note;
-        cx.check_sig("unauthorised_caller.rejected", sig, r.is_err(), || format!("{} called by {} ({}) succeeded although only {:?} (owner = {}) may call it", en.label, caller.0, sender_addr, en.allowed, current_owner));
+        // a configuration message that names no field changes nothing whoever sends it: accepting it from a stranger is
+        // not a privileged operation performed, as long as the state really is untouched
+        let empty_noop = en.label.ends_with("[nothing set]") && r.is_ok() && kv_equal(&before, &w.kv_clone());
+        if empty_noop {
+            cx.count("unauthorised:empty_update_accepted_without_effect");
+        }
+        cx.check_sig("unauthorised_caller.rejected", sig, r.is_err() || empty_noop, || format!("{} called by {} ({}) succeeded although only {:?} (owner = {}) may call it", en.label, caller.0, sender_addr, en.allowed, current_owner));
         if r.is_err() {
             let after = w.kv_clone();
             cx.check("unauthorised_caller.changes_nothing", kv_equal(&before, &after), || format!("{} by {}: state changed on a rejected call: {:?}", en.label, caller.0, kv_diff(&before, &after).into_iter().take(4).collect::<Vec<_>>()));
